@@ -1306,6 +1306,9 @@ def sm_lstrip(it, s, args, kw, right=False):
 
 def sm_startswith(it, s, args, kw):
     p = args[0]
+    if isinstance(p, tuple):
+        r = zor(*[zbool(x.e if isinstance(x, SBool) else x) for x in (sm_startswith(it, s, [q], kw) for q in p)])
+        return r if isinstance(r, bool) else SBool(r)
     if isinstance(s, SVal) or isinstance(p, SVal):
         f = z3.Function("startswith_f", V, V, z3.BoolSort())
         return SBool(f(text_term(it, s), text_term(it, p)))
@@ -1318,6 +1321,9 @@ def sm_startswith(it, s, args, kw):
 
 def sm_endswith(it, s, args, kw):
     p = args[0]
+    if isinstance(p, tuple):
+        r = zor(*[zbool(x.e if isinstance(x, SBool) else x) for x in (sm_endswith(it, s, [q], kw) for q in p)])
+        return r if isinstance(r, bool) else SBool(r)
     if isinstance(s, SVal) or isinstance(p, SVal):
         f = z3.Function("endswith_f", V, V, z3.BoolSort())
         return SBool(f(text_term(it, s), text_term(it, p)))
